@@ -76,7 +76,7 @@ def write_case(d, asms, assign, gap_model='flow', core_len=0.4, pitch=0.030, set
     rows = []
     for (n, r, p, bc) in assign:
         a = asms[n]
-        aid = asm_index(r, p)
+        aid = asm_index(r, p) + 1          # the reader wants base-1 assembly ids
         npin = 3 * a['n'] * (a['n'] - 1) + 1
         nsc = 6 * (a['n'] ** 2 - a['n'] + 1)
         nd = 6 * a['n'] * (len(a['ftf']) // 2)
